@@ -84,6 +84,15 @@ def main(argv):
     # never let leftover non-daemon threads (C14 zombies) keep the worker alive
     sys.stdout.flush()
     sys.stderr.flush()
+    # (no exit handlers run from here: a private working directory a workload made for itself is removed by hand)
+    try:
+        import shutil
+        cwd = os.getcwd()
+        if os.path.basename(cwd).startswith('verif-cwd-'):
+            os.chdir('/')
+            shutil.rmtree(cwd, ignore_errors=True)
+    except Exception:
+        pass
     os._exit(0)
 
 
